@@ -162,3 +162,168 @@ def run_tree(P, tree_now, ecc_now, workdir):
         outs = ",".join(sorted("%s:%s" % (hx(p.encode("latin-1")), hx(c)) for p, c in out.items())) or "-"
         res["reply"] = "%s %d %d %d %d %d %s" % (rc, stats[0], stats[1], stats[2], stats[3], stats[5], outs)
     return res
+
+
+WHOLE_RUN_MODELLED = [("pyFileFixity/header_ecc.py", "main"), ("pyFileFixity/structural_adaptive_ecc.py", "main"),
+                      ("pyFileFixity/header_ecc.py", "entry_fields"), ("pyFileFixity/structural_adaptive_ecc.py", "entry_fields"),
+                      ("pyFileFixity/header_ecc.py", "entry_assemble"), ("pyFileFixity/structural_adaptive_ecc.py", "stream_entry_assemble"),
+                      ("pyFileFixity/header_ecc.py", "ecc_correct_intra"), ("pyFileFixity/structural_adaptive_ecc.py", "ecc_correct_intra_stream"),
+                      ("pyFileFixity/lib/aux_funcs.py", "get_next_entry")]
+
+
+def whole_run_cases(rng, n, modes, workdir, oc, label="whole-run"):
+    """n complete `-c` runs of the real tools on generated trees and ecc files (damaged according to `modes`), each replayed into the Lean model
+    of the whole correction loop (Pff.Run.run: scanner, cursor, field splitting, intra-ecc, lenient int(), lookup, size check, block logic,
+    counters, outputs, exit status).  No exclusions: the model must agree on ANY bytes (also on damage that spells markers or delimiters).
+    Returns (requests, implementation replies)."""
+    import ecc_scen as es
+    from props import C08
+    lines, impl = [], []
+    for it in range(n):
+        P = es.gen_params(rng, small=True, erasures=False)
+        P.mbs = max(P.mbs, 20)
+        P.algo = rng.choice([3, 4])
+        bsize = None
+        if it % 5 == 4:
+            P, bsize = es.boundary_params(rng, P)
+        if not P.well_formed():
+            continue
+        P.no_fast_check = rng.random() < 0.3
+        tree = es.gen_tree(rng, P, nfiles=rng.randint(1, 4), maxsize=300)
+        if bsize is not None and bsize < 1500:
+            tree["edge.bin"] = bytes(rng.randrange(256) for _ in range(bsize))
+        if not tree:
+            continue
+        g = os.path.join(workdir, "g")
+        shutil.rmtree(g, ignore_errors=True)
+        eu.write_tree(g, tree)
+        eccp = os.path.join(workdir, "e.txt")
+        if eu.generate(P, g, eccp) != "0":
+            continue
+        data = open(eccp, "rb").read()
+        mode = rng.choice(modes)
+        dmg, new = dict(tree), data
+        if mode == "within":
+            db = bytearray(data)
+            try:
+                dmg, _, _ = es.within_capacity_damage(rng, P, tree, db)
+                new = bytes(db)
+            except (KeyError, IndexError, ValueError):
+                # the entries of the generated file do not match the tree (only with a defective generator): run undamaged
+                oc.count("%s: layout of the generated file does not match the tree" % label)
+                dmg, new = dict(tree), data
+        elif mode == "victim":
+            b = eu.entry_bounds(data)
+            if not b:
+                continue
+            vi = rng.randrange(len(b))
+            s, e = b[vi]
+            try:
+                f = eu.parse_entry(data, s, e)
+            except Exception:
+                continue
+            kd = rng.choice(C08.KINDS)
+            new = data[:s] + C08.damage_entry(rng, data[s:e], f, s, kd) + data[e:]
+            first = sorted(tree)[0]
+            if tree[first]:
+                c = bytearray(tree[first])
+                c[0] ^= 0x41
+                dmg[first] = bytes(c)
+        elif mode == "cut":
+            new = data[:rng.randrange(len(data) + 1)]
+            p = rng.choice(sorted(tree))
+            if tree[p] and rng.random() < 0.5:
+                c = bytearray(tree[p])
+                c[rng.randrange(len(c))] ^= 0x5A
+                dmg[p] = bytes(c)
+        elif mode == "heavy":
+            for p in list(tree):
+                c = bytearray(tree[p])
+                for _ in range(len(c) // 3 + 1):
+                    if c:
+                        c[rng.randrange(len(c))] = rng.randrange(256)
+                dmg[p] = bytes(c)
+        elif mode == "sizes":
+            # files grown / shrunk / missing with respect to the recorded size, with and without --ignore_size
+            P.ignore_size = rng.random() < 0.6
+            for p in list(tree):
+                r = rng.random()
+                if r < 0.3:
+                    dmg[p] = tree[p] + bytes(rng.randrange(256) for _ in range(rng.randint(1, 40)))
+                elif r < 0.6 and tree[p]:
+                    dmg[p] = tree[p][:rng.randrange(len(tree[p]))]
+                elif r < 0.7:
+                    del dmg[p]
+        res = run_tree(P, dmg, new, os.path.join(workdir, "run"))
+        if "request" in res and len(res["request"]) < 600000:
+            lines.append(res["request"])
+            impl.append(res["reply"])
+            oc.count("%s: %s / %s" % (label, P.tool, mode))
+        else:
+            oc.count("%s: not replayed (%s)" % (label, res["rc"][:40]))
+    return lines, impl
+
+
+def gen_case(P, tree, workdir):
+    """real `-g` run with hash / encode calls recorded; returns dict(rc, request, reply): the request asks the Lean model of generation
+    (Pff.Run.genStream: preamble, then per file marker, path, size text, intra parities, track) for the bytes of the ecc file, given the
+    recorded hash and parity tables and the files in the order the tool wrote them; the reply is the real file."""
+    from props.C10 import fbits
+    shutil.rmtree(workdir, ignore_errors=True)
+    root = os.path.join(workdir, "root")
+    eu.write_tree(root, tree)
+    eccp = os.path.join(workdir, "ecc.txt")
+    with OpsRecorder(P.mbs) as rec:
+        rc = eu.generate(P, root, eccp)
+    res = {"rc": rc}
+    if rc != "0" or not os.path.exists(eccp):
+        return res
+    data = open(eccp, "rb").read()
+    first = data.find(eu.MARKER)
+    pre = data if first < 0 else data[:first]
+    # order in which the tool wrote the files: decode it from the walk order (sorted walk of the repaired tree: dirs after files, by name)
+    order = []
+    for dirpath, dirs, files in os.walk(root):
+        dirs.sort()
+        for f in sorted(files):
+            order.append(os.path.relpath(os.path.join(dirpath, f), root).replace(os.sep, "/"))
+    if sorted(order) != sorted(tree):
+        return res
+    ht = " ".join("%s:%s" % (hx(m), hx(h)) for m, h in rec.h.items())
+    fs = " ".join("%s:%s" % (hx(p.encode("latin-1")), hx(tree[p])) for p in order)
+    res["request"] = "eccgen %s %d %d %d %d %d %d %d %d %s %s ; %s ; %s" % (
+        "h" if P.tool == "header" else "w", eu.HASHLEN[P.hash], P.mbs, P.size, P.k_of_rate(P.r1), P.k_of_rate(P.ri),
+        fbits(P.r1), fbits(P.r2), fbits(P.r3), hx(pre) or "-", fs, ht, rec.enc_table())
+    res["reply"] = hx(data)
+    res["order"] = order
+    return res
+
+
+def gen_cases(rng, n, workdir, oc, label="generation"):
+    """n real `-g` runs, each compared byte for byte with the Lean model of generation (Pff.Run.genStream)"""
+    import ecc_scen as es
+    lines, impl = [], []
+    for it in range(n):
+        P = es.gen_params(rng, small=True, erasures=False)
+        P.mbs = max(P.mbs, 20)
+        P.algo = rng.choice([3, 4, 1, 3])
+        bsize = None
+        if it % 5 == 4:
+            P, bsize = es.boundary_params(rng, P)
+        if not P.well_formed():
+            continue
+        tree = es.gen_tree(rng, P, nfiles=rng.randint(1, 4), maxsize=400)
+        if bsize is not None and bsize < 1500:
+            tree["edge.bin"] = bytes(rng.randrange(256) for _ in range(bsize))
+        if it % 7 == 3:
+            tree["empty.dat"] = b""
+        if not tree:
+            continue
+        r = gen_case(P, tree, os.path.join(workdir, "gen"))
+        if "request" in r and len(r["request"]) < 600000:
+            lines.append(r["request"])
+            impl.append(r["reply"])
+            oc.count("%s: %s" % (label, P.tool))
+        else:
+            oc.count("%s: not replayed (%s)" % (label, str(r["rc"])[:40]))
+    return lines, impl
